@@ -1,9 +1,10 @@
 (** C15 -- script arguments, functions, source, exit statuses. Statements only. *)
 From Cicada Require Import Base.Chars Base.Peg Gen.LocustGrammar Model.Script Model.ScriptAst Model.Args Model.ShellScript
-  Proofs.ArgsProofs Proofs.SetEProofs Proofs.ScriptProofs Proofs.ShellProofs Proofs.ShellCallsProofs Proofs.ShellFlagProofs Proofs.LocustParse Proofs.ShellTextProofs.
+  Proofs.ArgsProofs Proofs.SetEProofs Proofs.ScriptProofs Proofs.ShellProofs Proofs.ShellCallsProofs Proofs.ShellFlagProofs Proofs.LocustParse Proofs.ShellTextProofs Proofs.ShellSourceProofs Proofs.LocustIndent Proofs.ShellIndentProofs Proofs.ShellRefEqProofs.
 From Coq Require Import ZArith String Ascii.
 
 Definition S2 (s : string) : str := map N_of_ascii (list_ascii_of_string s).
+Definition it_tab : str := (9 :: nil)%N.
 
 (** 1. Positional parameters. For every token without a newline and every
     argument vector, expand_args_for_single_token performs exactly the single
@@ -652,6 +653,147 @@ Proof.
   - vm_compute. reflexivity.
 Qed.
 
+(** 3i. `source` LINES IN THE TRACE (round 9c; Proofs/ShellSourceProofs.v). The reference [refl3 ext rfiles fuel
+    lines e rt last] = Some (flag afterwards, function table afterwards, commands executed, status) is 3g's with the
+    reference function table as STATE and one more line class: `source PATH [args]` -- the file's function
+    definitions are added to the table (later ones win), its main lines run in the same shell state from the
+    caller's flag, functions it defines (or a `set -e` it executes: NOT) persist: the flag after the line is the
+    CALLER's (run_script restores it, 3fef4c9), so `source` never switches set -e off, and a failure inside the
+    sourced file under set -e ends the sourcing script as well (status handed up); a missing file is status 1; a
+    `source` costs two levels of fuel, a call one, as in the model. Files enter through [files_ok file_text
+    rfiles]: every readable file has function_table text = (defs, text_new), defs tab_ok to the reference defs,
+    text_new flat_parsed to ok_line lines. The final function table of the state is some ft' with tab_ok ft' rt'. *)
+Theorem C15_sete_source_trace : forall ext file_text n rfiles, files_ok file_text rfiles ->
+  forall fuel text lines w rt e' rt' tr st,
+  flat_parsed text lines -> forallb ok_line lines = true -> tab_ok (s_funcs w) rt ->
+  refl3 ext rfiles fuel lines (s_eoe w) rt 0%Z = Some (e', rt', tr, st) ->
+  exists sts ft',
+    run_lines shs (exec_line ext file_text n fuel) no_words no_setvar s_eoe n text w =
+      Some (Done (mk_shs e' ft' (s_log w ++ tr)) sts false false)
+    /\ tab_ok ft' rt' /\ script_status sts = st.
+Proof. exact source_trace_lines. Qed.
+
+Theorem C15_sete_source_trace_script : forall ext file_text n rfiles, files_ok file_text rfiles ->
+  forall fuel path rdefs lines w rt e' rt' tr st,
+  get_file path rfiles = Some (rdefs, lines) -> tab_ok (s_funcs w) rt ->
+  refl3 ext rfiles fuel lines (s_eoe w) (set_rfuncs rdefs rt) 0%Z = Some (e', rt', tr, st) ->
+  exists ft',
+    run_script ext file_text n (S fuel) w path = (mk_shs (s_eoe w) ft' (s_log w ++ tr), st) /\ tab_ok ft' rt'.
+Proof. exact source_trace_script. Qed.
+
+(** instance: `set -e`, then a `source` of a file that defines g and runs a command, then g, then a failure *)
+Definition sr_main : str := S2 "set -e
+one
+source lib.sh
+g
+fail7
+notreached
+".
+Definition sr_lib : str := S2 "function g {
+  in_g
+}
+in_lib
+".
+Definition sr_files (p : str) : option str :=
+  if str_eqb (S2 "m.sh") p then Some sr_main else if str_eqb (S2 "lib.sh") p then Some sr_lib else None.
+Definition sr_lib_defs : list (str * str) := Eval vm_compute in fst (function_table sr_lib).
+Definition sr_lib_new : str := Eval vm_compute in snd (function_table sr_lib).
+Definition sr_main_lines : list str :=
+  [S2 "set -e"; S2 "one"; S2 "source lib.sh"; S2 "g"; S2 "fail7"; S2 "notreached"].
+Definition sr_rfiles : list (str * rfile) :=
+  [(S2 "m.sh", ([], sr_main_lines)); (S2 "lib.sh", ([(S2 "g", [S2 "in_g"])], [S2 "in_lib"]))].
+Example C15_sete_source_trace_nonvacuous :
+  files_ok sr_files sr_rfiles /\
+  exists ft',
+    run_script fs_ext sr_files 8 4 (mk_shs false [] []) (S2 "m.sh") =
+      (mk_shs false ft' [S2 "one"; S2 "in_lib"; S2 "in_g"; S2 "fail7"], 7%Z)
+    /\ tab_ok ft' [(S2 "g", [S2 "in_g"])].
+Proof.
+  assert (Hf : files_ok sr_files sr_rfiles).
+  { intro path. unfold sr_files, sr_rfiles. cbn [get_file].
+    destruct (str_eqb (S2 "m.sh") path).
+    - exists [], sr_main, [], sr_main_lines. split; [vm_compute; reflexivity|]. split; [reflexivity|].
+      split; [apply tab_nil|]. split; [prove_flat_parsed | vm_compute; reflexivity].
+    - destruct (str_eqb (S2 "lib.sh") path); [|reflexivity].
+      exists sr_lib_defs, sr_lib_new, [(S2 "g", [S2 "in_g"])], [S2 "in_lib"].
+      split; [vm_compute; reflexivity|]. split; [reflexivity|].
+      split; [|split; [prove_flat_parsed | vm_compute; reflexivity]].
+      vm_compute. apply tab_cons; [prove_flat_parsed | vm_compute; reflexivity | apply tab_nil]. }
+  split; [exact Hf|].
+  destruct (C15_sete_source_trace_script fs_ext sr_files 8 sr_rfiles Hf 3 (S2 "m.sh") [] sr_main_lines
+              (mk_shs false [] []) [] true [(S2 "g", [S2 "in_g"])] [S2 "one"; S2 "in_lib"; S2 "in_g"; S2 "fail7"] 7%Z
+              eq_refl tab_nil) as [ft' [H1 H2]].
+  { vm_compute. reflexivity. }
+  exists ft'. split; [exact H1 | exact H2].
+Qed.
+
+(** 3j. INDENTED flat texts (round 9c; Proofs/ShellIndentProofs.v), from C14_parse_indented: a block of command
+    lines, each with any indentation ([cmd_lines b = Some ls], b in fragI_block), is parsed to exactly its lines
+    or parse_from runs out of fuel; so a function-table entry whose body is written indented goes into tab_ok
+    through the theorem (C15_tab_ok_indented), and the flag-state theorem takes an indented script text
+    (C15_sete_calls_text_indented). Blank lines, break / continue lines are not in [cmd_lines]. *)
+Theorem C15_indented_text_parsed : forall b ls, fragI_block b = true -> cmd_lines b = Some ls ->
+  parse_from l_grammar L_EXP (render_block b) = PFuel \/ flat_parsed (render_block b) ls.
+Proof. exact indented_text_parsed. Qed.
+
+Theorem C15_tab_ok_indented : forall k b ls ft rt, fragI_block b = true -> cmd_lines b = Some ls ->
+  parse_from l_grammar L_EXP (render_block b) <> PFuel -> forallb ok_line ls = true ->
+  tab_ok ft rt -> tab_ok ((k, render_block b) :: ft) ((k, ls) :: rt).
+Proof. exact tab_ok_indented. Qed.
+
+Theorem C15_sete_calls_text_indented : forall ext file_text n ft rt, tab_ok ft rt ->
+  forall fuel b ls w e' tr st, fragI_block b = true -> cmd_lines b = Some ls ->
+  parse_from l_grammar L_EXP (render_block b) <> PFuel ->
+  forallb ok_line ls = true -> s_funcs w = ft ->
+  refl ext rt fuel ls (s_eoe w) 0%Z = Some (e', tr, st) ->
+  exists sts,
+    run_lines shs (exec_line ext file_text n fuel) no_words no_setvar s_eoe n (render_block b) w =
+      Some (Done (mk_shs e' ft (s_log w ++ tr)) sts false false)
+    /\ script_status sts = st.
+Proof.
+  intros ext file_text n ft rt Htab fuel b ls w e' tr st Hfr Hc Hnf Hok Hf Hr.
+  destruct (indented_text_parsed b ls Hfr Hc) as [F|P]; [contradiction|].
+  exact (flag_state_lines ext file_text n ft rt Htab fuel (render_block b) ls w e' tr st P Hok Hf Hr).
+Qed.
+
+(** instance: the body of f is written with two blanks / a tab of indentation, the main text with one blank *)
+Definition ti_body : block :=
+  BCons (SCmd (S2 "  ") (S2 "in1")) (BCons (SCmd it_tab (S2 "fail7")) (BCons (SCmd (S2 "  ") (S2 "last")) BNil)).
+Definition ti_main : block :=
+  BCons (SCmd nil (S2 "set -e")) (BCons (SCmd (S2 " ") (S2 "one")) (BCons (SCmd nil (S2 "f")) (BCons (SCmd nil (S2 "notreached")) BNil))).
+Example C15_sete_calls_text_indented_nonvacuous :
+  render_block ti_body = S2 "  in1
+	fail7
+  last
+" /\
+  exists sts,
+    run_lines shs (exec_line fs_ext (fun _ => None) 8 3) no_words no_setvar s_eoe 8 (render_block ti_main)
+      (mk_shs false [(S2 "f", render_block ti_body)] []) =
+      Some (Done (mk_shs true [(S2 "f", render_block ti_body)] [S2 "one"; S2 "in1"; S2 "fail7"]) sts false false)
+    /\ script_status sts = 7%Z.
+Proof.
+  split; [vm_compute; reflexivity|].
+  assert (Ht : tab_ok [(S2 "f", render_block ti_body)] [(S2 "f", [S2 "in1"; S2 "fail7"; S2 "last"])]).
+  { apply C15_tab_ok_indented; [vm_compute; reflexivity | vm_compute; reflexivity | vm_compute; discriminate
+                                | vm_compute; reflexivity | apply tab_nil]. }
+  apply (C15_sete_calls_text_indented fs_ext (fun _ => None) 8 _ _ Ht 3 ti_main
+           [S2 "set -e"; S2 "one"; S2 "f"; S2 "notreached"] (mk_shs false [(S2 "f", render_block ti_body)] [])
+           true [S2 "one"; S2 "in1"; S2 "fail7"] 7%Z).
+  - vm_compute. reflexivity.
+  - vm_compute. reflexivity.
+  - vm_compute. discriminate.
+  - vm_compute. reflexivity.
+  - reflexivity.
+  - vm_compute. reflexivity.
+Qed.
+
+(** 3k. The two references agree (round 9c; Proofs/ShellRefEqProofs.v): from the flag ON, the flag-state
+    reference [refl] executes exactly [upto_fail] of the inlined sequence [unfold], keeps the flag on, and its
+    status is that of the first failing command (0 if none) -- so 3f is the flag-on reading of 3g. *)
+Theorem C15_refl_is_upto_fail : forall ext rt fuel ls cmds, unfold rt fuel ls = Some cmds ->
+  refl ext rt fuel ls true 0%Z = Some (true, upto_fail ext cmds, fail_status ext cmds).
+Proof. exact refl_is_upto_fail. Qed.
+
 (** The property, in full, and its refutation on the faithful model (what is left: a token
     holding a newline is not expanded -- first clause, stated for ALL tokens). *)
 Definition C15_full : Prop :=
@@ -728,6 +870,14 @@ Print Assumptions C15_sete_rest_of_body.
 Print Assumptions C15_sete_calls_trace.
 Print Assumptions C15_sete_calls_script.
 Print Assumptions C15_first_failure.
+Print Assumptions C15_refl_is_upto_fail.
+Print Assumptions C15_indented_text_parsed.
+Print Assumptions C15_tab_ok_indented.
+Print Assumptions C15_sete_calls_text_indented.
+Print Assumptions C15_sete_calls_text_indented_nonvacuous.
+Print Assumptions C15_sete_source_trace.
+Print Assumptions C15_sete_source_trace_script.
+Print Assumptions C15_sete_source_trace_nonvacuous.
 Print Assumptions C15_flat_text_parsed.
 Print Assumptions C15_sete_calls_text.
 Print Assumptions C15_sete_calls_text_nonvacuous.
